@@ -109,23 +109,21 @@ def post_forbid_wire(st, args, kwargs, result):
 
 
 def decode(circuit, rec):
-    """Read the returned circuit as a list of (first, second, table4) per gate index, or an error."""
+    """Read the returned circuit as a list of (first, second, table4, type) per gate index, or an error.
+    Gate indices are positional (the i-th input is gate i, the k-th non-input gate in construction order is gate
+    n+k): labels are not part of the property."""
     n, r = rec['n'], rec['r']
     net = refsem.net_of(circuit)
-    want_inputs = [str(i) for i in range(n)]
-    if net.inputs != want_inputs:
-        return None, ('inputs', 'inputs %r, expected %r' % (net.inputs, want_inputs))
+    if len(net.inputs) != n:
+        return None, ('inputs', '%d inputs, the model has %d' % (len(net.inputs), n))
     inner = [l for l, (t, _) in net.gates.items() if t != 'INPUT']
     if len(inner) != r:
         return None, ('gate_count', 'circuit has %d gates, %d were requested' % (len(inner), r))
-    idx = {str(i): i for i in range(n)}
-    for k in range(r):
-        idx['s%d' % (n + k)] = n + k
+    idx = {l: i for i, l in enumerate(net.inputs)}
+    for k, l in enumerate(inner):
+        idx[l] = n + k
     gates = []
-    for k in range(r):
-        lbl = 's%d' % (n + k)
-        if lbl not in net.gates:
-            return None, ('labels', 'gate %s missing' % lbl)
+    for k, lbl in enumerate(inner):
         t, ops = net.gates[lbl]
         if len(ops) != 2:
             return None, ('arity', 'gate %s has %d operands' % (lbl, len(ops)))
